@@ -113,6 +113,11 @@ theorem loop_spec (i : Bytes) (hP : P < Facts.fragMax) :
       have hn1 : QWF n1 := hq n1 (by rw [hin]; exact List.mem_cons_self)
       have hq1 : ∀ a ∈ (none : Option Pkt).toList ++ q1, QWF a := by
         intro a ha; exact hq a (by rw [hin]; exact List.mem_cons_of_mem _ (by simpa using ha))
+      by_cases hkey : hasFlag n1.flags Facts.flagCrypt = true ∧ Flag.len o.flags > 0
+      · -- key material behind other packets: kept back as carry-over, nothing lost
+        rw [if_pos hkey]
+        exact ⟨[], by simpa using hc, by simp [hin], rfl, rfl, by simp⟩
+      rw [if_neg hkey]
       by_cases hnop : elide i s m n1 = true
       · -- an elided keep-alive
         rw [if_pos hnop]
